@@ -46,7 +46,7 @@ claimed.update({
 claimed.update({
  "C11": dict(
    text="Bounded exhaustive check that every read-only or value-returning public operation of the model types (table checked for completeness against the method sets by reflection; ~300 operation instances per operand document: compare, hash, diff, copy, look up, traverse, unite, intersect, serialize through all 8 formats) leaves every operand unchanged: order-sensitive field-by-field snapshots before = after, on fully populated documents whose lists are stored unsorted, sparse and empty ones, with every second-operand variant.",
-   note="Trusted: gen.Snap. The data-race clause is decided by the race-instrumented pair exploration (group schedules) when that variant is built; see evidence.coverage.selftests.",
+   note="Trusted: gen.Snap; for the concurrent clause the controlled scheduler (two threads, both orders = all schedules since the operations contain no synchronisation) with ThreadSanitizer seeing no hand-off edges: every unordered pair of operation families (thorough: instances) on a shared document.",
    technique="explicit enumeration of operations x operands with before/after snapshots; race-instrumented serialized pair schedules",
    design="5/C11"),
  "C12": dict(
@@ -122,6 +122,13 @@ claimed.update({
    note="Trusted: the vfs seam's step decomposition (os-level calls; WriteFile = create/truncate, write, close) and the process-death model. Without the seam the check reports exhaustive:false (cap vfs-seam-unavailable).",
    technique="exhaustive crash-point and torn-write enumeration of the real store through a file-system seam",
    design="5/C20"),
+})
+claimed.update({
+ "C17": dict(
+   text="Stateless model checking of the implementation under a controlled scheduler: real goroutines run one at a time, scheduling points at every sync operation of pkg/reader, pkg/writer, pkg/formats and pkg/storage (import-rewrite overlay generated from the current sources; the shim performs the real operation), depth-first enumeration of every schedule of all 136 unordered pairs of a 16-call alphabet (register/unregister/get on shared and private keys for both registries, constructors with and without options, JSON and tag-value detection, parse and write of private documents) with <=2 preemptions; thorough adds 216 three-thread registry scenarios with unbounded preemptions and 256 two-calls-per-thread scenarios with <=3 preemptions (9.6 million schedules). The binary is race-instrumented with the scheduler's hand-offs hidden from ThreadSanitizer, so any pair of accesses not ordered by the program's own synchronisation is reported in the same serialised, deterministic executions; deadlock = no enabled thread; result vectors must equal those of some sequential order run on the real code; one schedule per scenario is replayed to prove determinism; race reports are confirmed by replaying the schedule in 4 fresh processes.",
+   note="Trusted: the vsync shim (each operation = scheduling point + the real sync operation), ThreadSanitizer's happens-before analysis, sequentially consistent interleavings at synchronisation granularity. Falls back to thread-granularity schedules with seam_sync:false if the overlay cannot be applied.",
+   technique="stateless model checking: controlled scheduler + preemption-bounded DFS over real goroutines, TSan with hidden hand-offs, sequential-order oracle",
+   design="5/C17"),
 })
 pending = {}
 all_ids = ["C%02d" % i for i in range(1, 21)]
